@@ -301,6 +301,26 @@ func cycleValue(shape int) (string, any) {
 		n := &node{V: 1}
 		n.I = []any{map[string]any{"n": n}}
 		return "through-interface-slice-map", *n
+	case 11:
+		n := &jtypes.LNode{V: 1}
+		n.Next = n
+		return "non-empty-interface-self", n
+	case 12:
+		a, b := &jtypes.LNode{V: 1}, &jtypes.LNode{V: 2}
+		a.Next, b.Next = b, a
+		return "non-empty-interface-pair", *a
+	case 13:
+		m := jtypes.RMp{}
+		m["self"] = m
+		return "recursive-map-type", m
+	case 14:
+		var a jtypes.RArr
+		a[0] = &a
+		return "recursive-array-type", &a
+	case 15:
+		n := &jtypes.LNode{V: 1}
+		n.Next = n
+		return "non-empty-interface-in-any-slice", []any{map[string]any{"n": n}}
 	default:
 		type w struct{ P **node }
 		n := &node{}
@@ -309,7 +329,7 @@ func cycleValue(shape int) (string, any) {
 	}
 }
 
-const nCycleShapes = 12
+const nCycleShapes = 17
 
 func runCycles(c *core.Case) {
 	shape := c.Index % nCycleShapes
@@ -420,7 +440,8 @@ func runDeepDecode(c *core.Case) {
 		doc = append(append(doc, "1"...), bytes.Repeat(rev, n)...)
 	}
 	w := map[string]any{"open": open, "depth": n, "closed": c.Index%2 == 0}
-	targets := []func() any{func() any { return new(any) }, func() any { return new(node) }, func() any { return new([]node) }, func() any { return new(sliceCycle) }, func() any { return new(map[string]any) }, func() any { return new(json.RawMessage) }, func() any { return new(struct{}) }}
+	targets := []func() any{func() any { return new(any) }, func() any { return new(node) }, func() any { return new([]node) }, func() any { return new(sliceCycle) }, func() any { return new(map[string]any) }, func() any { return new(json.RawMessage) }, func() any { return new(struct{}) },
+		func() any { return new(jtypes.RMp) }, func() any { return new(jtypes.RSl) }, func() any { return new(jtypes.RArr) }, func() any { return new(map[string]jtypes.RMp) }, func() any { return new(jtypes.LNode) }}
 	for ti, mk := range targets {
 		c.Journal(fmt.Sprintf("%s|Unmarshal-target%d", class, ti))
 		if sig, stk := core.Guard(func() { json.Unmarshal(doc, mk()) }); sig != "" {
@@ -458,7 +479,7 @@ func runDeepDecode(c *core.Case) {
 func init() {
 	core.Register(&core.Monitor{
 		Prop:    "C06",
-		Rule:    "decode-fuzz: arbitrary bytes, token soups, truncated and mutated documents into guarded targets (struct{Pre [4]uint64; V T; Post [4]uint64} with canary words) of generated and library types, zero or pre-filled, through Unmarshal, Parse with a random 9-bit flag word, Decoder.Decode (chunked reader ending in an error; UseNumber/DisallowUnknownFields/ZeroCopy), Valid, Tokenizer and invalid targets. encode-values: generated values incl. pointer-shaped corners by value, by pointer, as map value, in a one-element array and inside interfaces through Marshal/Append/Encoder/MarshalIndent. cycles: 12 cyclic shapes through pointers, slices, maps and interfaces must return an error. deep-encode / deep-decode: nesting of 10 .. 10^6 levels (3*10^6 for documents) in 5 shapes each. A recovered panic, a canary change, a process death attributed by the journal (SIGSEGV, stack overflow, checkptr, ASan report, out of memory) or a CPU-time budget overrun confirmed in a fresh process is a violation; no functional comparison. Distinct by (type, document) / shape.",
+		Rule:    "decode-fuzz: arbitrary bytes, token soups, truncated and mutated documents into guarded targets (struct{Pre [4]uint64; V T; Post [4]uint64} with canary words) of generated and library types, zero or pre-filled, through Unmarshal, Parse with a random 9-bit flag word, Decoder.Decode (chunked reader ending in an error; UseNumber/DisallowUnknownFields/ZeroCopy), Valid, Tokenizer and invalid targets. encode-values: generated values incl. pointer-shaped corners by value, by pointer, as map value, in a one-element array and inside interfaces through Marshal/Append/Encoder/MarshalIndent. cycles: 17 cyclic shapes through pointers, slices, maps, empty and non-empty interfaces, recursive named slice/map/array types must return an error. deep-encode / deep-decode: nesting of 10 .. 10^6 levels (3*10^6 for documents) in 5 shapes each. A recovered panic, a canary change, a process death attributed by the journal (SIGSEGV, stack overflow, checkptr, ASan report, out of memory) or a CPU-time budget overrun confirmed in a fresh process is a violation; no functional comparison. Distinct by (type, document) / shape.",
 		Trusted: []string{"the supervisor's crash attribution (journal + stderr signature)", "Go race detector's checkptr and AddressSanitizer for the unsafe paths", "process CPU-time clock for bounded progress"},
 		Subs: []core.Sub{
 			{Name: "decode-fuzz", N: core.Const(24000, 1000000), Run: runDecodeFuzz},
